@@ -81,11 +81,15 @@ fn observe() -> Vec<Case> {
     let server = Arc::new(RwLock::new(new_server(port)));
     let s2 = server.clone();
     rt.spawn(async move { Server::new_server_task(s2).await; });
-    let r = rt.block_on(async {
-        tokio::time::sleep(Duration::from_millis(400)).await;
-        tokio::time::timeout(Duration::from_secs(40), workload(port)).await
-    });
-    let ok = matches!(r, Ok(Ok(())));
+    // a busy machine must not be mistaken for a broken server: three patient attempts
+    let mut ok = false;
+    for _ in 0..3 {
+        let r = rt.block_on(async {
+            tokio::time::sleep(Duration::from_millis(400)).await;
+            tokio::time::timeout(Duration::from_secs(120), workload(port)).await
+        });
+        if matches!(r, Ok(Ok(()))) { ok = true; break; }
+    }
     { let mut s = server.write(); s.abort(); }
     rt.block_on(async { tokio::time::sleep(Duration::from_millis(1500)).await; });
     rt.shutdown_timeout(Duration::from_secs(2));
